@@ -88,6 +88,8 @@ def work(ctx, tier):
                     f"[{e}] call #{j} on a reused object differs from the same call on a fresh object at event {d}: {a[d:d + 2]} vs {b[d:d + 2]}; finals {fa} vs {fb}",
                     common.payload(sc, e, j, mode="reuse"),
                 )
+    if tier != "quick":
+        common.repo_suite_under_monitors(ctx, "caps")
     common.flush_stats(ctx, stats)
 
 
